@@ -165,11 +165,15 @@ def utf8 (c : Nat) : List Nat :=
   else if c < 0x10000 then [0xE0 + c / 4096, 0x80 + c / 64 % 64, 0x80 + c % 64]
   else [0xF0 + c / 262144, 0x80 + c / 4096 % 64, 0x80 + c / 64 % 64, 0x80 + c % 64]
 
-/-- `char_from_surrogate_pair(low, high)`, including the expression exactly as written:
-`(((high - 0xD800) as u32) << 10) | ((low - 0xDC00) as u32 + 0x1_0000)` -/
+/-- `char_from_surrogate_pair(low, high)`: the two halves `((high - 0xD800) as u32) << 10` and
+`(low - 0xDC00) as u32 + 0x1_0000` are combined with the operator the source uses
+(`J_PAIR_IS_ADD` = 1: `+`; 0: the `|` of earlier revisions, which is wrong whenever bit 16 of
+the high half is set) -/
 def charFromSurrogatePair (low high : Nat) : Option Nat :=
   if J_LOW_MIN ≤ low ∧ low ≤ J_LOW_MAX ∧ J_HIGH_MIN ≤ high ∧ high ≤ J_HIGH_MAX then
-    let n := ((high - J_PAIR_HIGH_SUB) <<< J_PAIR_SHIFT) ||| ((low - J_PAIR_LOW_SUB) + J_PAIR_BASE)
+    let hi := (high - J_PAIR_HIGH_SUB) <<< J_PAIR_SHIFT
+    let lo := (low - J_PAIR_LOW_SUB) + J_PAIR_BASE
+    let n := if J_PAIR_IS_ADD = 1 then hi + lo else hi ||| lo
     if isScalar n then some n else none
   else none
 
